@@ -16,9 +16,9 @@ from symex.poly import pall_in, pand, pconcat, pcontains, peq, pimplies, plen, p
 
 PROPERTY = "C03"
 BOUNDS = {
-    "quick": {"path": "'/' + <= 5 solver characters (printable ASCII without % ? #)", "maps": "14 rule maps x 3 insertion orders x strict/merge slashes on/off (4 settings)",
+    "quick": {"path": "'/' + <= 5 solver characters (printable ASCII without % ? #)", "maps": "15 rule maps x 3 insertion orders x strict/merge slashes on/off (4 settings)",
               "methods": "GET + one more"},
-    "thorough": {"path": "<= 7 characters", "maps": "14 maps x 6 orders x 4 slash settings"},
+    "thorough": {"path": "<= 7 characters", "maps": "15 maps x 6 orders x 4 slash settings"},
 }
 STUBS = ["urllib.parse.quote: per-byte model (safe set -> itself, else %XX), differentially tested at start-up"]
 ASSUMPTIONS = ["rule maps, insertion orders and slash settings are enumerated, not solver-quantified", "paths are printable ASCII"]
@@ -60,6 +60,9 @@ MORE_MAPS = [
     # branch rules per method next to a leaf for another method (strict_slashes off: the
     # slash-less form must still respect the method sets)
     ["/a/|GET", "/a/|POST", "/<x>|PUT", "/<int:n>/|DELETE"],
+    # converters that restrict what they accept beyond their regex (digit count, length), without
+    # a sibling rule that could take over
+    ["/q/<int(fixed_digits=2):n>", "/w/<string(length=2):s>/x", "/z/<string(minlength=2,maxlength=3):s>"],
 ]
 
 
@@ -257,6 +260,11 @@ def body_match(I, X, mi=0, order=0, strict=True, merge=True, n=3, method="GET", 
     if mi == 6:
         X.known("C03-validation-error-shadows-sibling-rule",
                 pand(ref_admits_text(r"/p/\d+/?", tail, X), pnot(ref_admits_text(r"/p/\d\d", tail, X))))
+    if ALL_MAPS()[mi] and ALL_MAPS()[mi][0] == "/q/<int(fixed_digits=2):n>":
+        # the same defect without a sibling: the merged-slash retry accepts '/q//7' by the part
+        # regex and redirects to '/q/7', which the converter then rejects
+        X.known("C03-validation-error-shadows-sibling-rule",
+                pand(ref_admits_text(r"/q/\d+/?", tail, X), pnot(ref_admits_text(r"/q/\d\d", tail, X)), pnot(peq(merged(path), path))))
     outcome = None
     try:
         rule, args = I.call(adapter.match, (), {"path_info": path, "method": method, "return_rule": True, "query_args": "q=1"})
